@@ -19,7 +19,7 @@ from vmon.refmodels import shapes as SH
 PROPERTY = "C08"
 LEVEL = "exploration"
 RULE = ("random cases: distributed_shampoo {x64 on, off} x layouts with 1 or 2 blocked axes and ragged last blocks (e.g. (11,4)/4, (8,6)/4, "
-        "(10,7)/4, (6,3,5)/3) x per-block gradient scales 10^U(-6,6) x graft {NONE, SGD, RMSPROP} x Newton/eigh x beta2 x {jit, pmap int16-quantised, sharded 2-device mesh} x 5-step histories; "
+        "(10,7)/4, (6,3,5)/3) x per-block gradient scales 10^U(-6,6) x graft {NONE, SGD, RMSPROP} x Newton/eigh x beta2 x {jit, pmap int16-quantised, 2-device pmap, sharded 2-device mesh} x 5-step histories; "
         "companions: 1-2 extra leaves of rank 1-3 with scale 1e-8..1e8 and larger statistics; Tearfree Shampoo: layouts with dims multiple of the "
         "block (1 or 2 blocked axes) x scales 10^U(-3,3).  evaluations = (block, step) comparisons; non-trivial = case with >= 2 blocks of scale "
         "ratio >= 1e3 or a companion; distinct by hash of the case")
@@ -57,7 +57,7 @@ def gen_case(rng, kind):
             "beta2": float(rng.choice([1.0, 0.9, 0.999])), "eps": float(rng.choice([1e-4, 1e-3])), "rel": True,
             "companion": bool(rng.integers(0, 2)), "T": 5, "hseed": int(rng.integers(0, 2 ** 31)),
             # replicated, pmap with int16-quantised statistics (x64 off only: its roots are float32), sharded (stacked global statistics)
-            "mode": str(rng.choice(["jit", "jit", "sharded", "pmapq"]))}
+            "mode": str(rng.choice(["jit", "jit", "sharded", "pmapq", "pmap2"]))}
   (shape, block) = TF_LAYOUTS[int(rng.integers(0, len(TF_LAYOUTS)))]
   return {"kind": "tf", "shape": list(shape), "block": block, "decay": float(rng.choice([1.0, 0.9])),
           "companion": bool(rng.integers(0, 2)), "T": 5, "hseed": int(rng.integers(0, 2 ** 31))}
@@ -77,7 +77,10 @@ def make_hist(rng, shape, slices, T, lo, hi):
 def run_ds(cfg, trees_hist, T, mode="jit"):
   """trees_hist: dict leaf -> list of T arrays.  Returns list of update dicts."""
   params = {k: np.zeros(v[0].shape, np.float32) for k, v in trees_hist.items()}
-  r = H.Runner(cfg, params, mode, 2 if mode == "sharded" else 1)
+  if mode == "pmap2":
+    r = H.Runner(cfg, params, "pmap", 2)     # data-parallel over two devices: each replica inverts a slice of the statistics
+  else:
+    r = H.Runner(cfg, params, mode, 2 if mode == "sharded" else 1)
   outs = []
   for t in range(T):
     u, _ = r.step({k: v[t] for k, v in trees_hist.items()})
@@ -121,8 +124,13 @@ def check_ds(c, rec):
     full = run_ds(cfg, {"w": hist}, c["T"], mode)
     sep = run_ds(cfg, {"b%02d" % i: [h[sl] for h in hist] for i, sl in enumerate(slices)}, c["T"], mode)
     comp = None
+    if mode == "pmap2":
+      c = dict(c, companion=True)
     if c["companion"]:
       zshape = [(7, 9, 2), (13,), (16, 3), (5, 5), (8, 8), (block, block)][int(rng.integers(0, 6))]
+      if mode == "pmap2":
+        # a companion of a different rank (different root exponent) whose statistics land on the other replica
+        zshape = [(13,), (6,)][int(rng.integers(0, 2))] if len(shape) >= 2 else [(5, 5), (7, 3)][int(rng.integers(0, 2))]
       zs = 10 ** rng.uniform(-8, 8)
       comp = run_ds(cfg, {"w": hist, "z": [(rng.standard_normal(zshape) * zs).astype(np.float32) for _ in range(c["T"])]}, c["T"], mode)
     # one block optimised completely alone (its own optimizer instance: no other statistic to be padded to)
